@@ -25,3 +25,222 @@ Print Assumptions emit_program_transparent.
 Theorem no_markers_without_path : forall opt prog is, emit_program_instrs opt None prog = Ok is -> strip is = is.
 Proof. exact ProgProps16.no_markers_without_path. Qed.
 Print Assumptions no_markers_without_path.
+
+(* ---------- which line a marker names (MarkerLines.v) ---------- *)
+(* `construct`: command, label, condition, switch, case, text, movement, step, mart, item, raw line, map script, table entry;
+   `kline k`: the line the AST records for it; `shows k i`: instruction i renders construct k.  Emitter, for all programs: every
+   marker is directly followed by the instruction of a construct of the program and carries that construct's line
+   (marker_names_following_construct).  Parser, site by site: the token whose line is recorded is the first token of the construct in the
+   source stream - command / label: the name token; condition: the first token of the operand (AutoVar: the command token);
+   switch: the first token of the operand; case: the first token of the value; item / step: the token itself; raw: the line of the
+   raw text.  Whole pipeline: every marker of the compiled output names a line between 1 and the number of source lines on which
+   that construct's token starts (markers_name_source_lines, compile_markers_name_source_lines; positions: LexPos.tokens_are_located). *)
+From Pory Require Import Format Consume ConstSites LexInv LexPos MarkerLines.
+Theorem marker_names_following_construct :
+  forall (opt : bool) (p : text) (prog : program) (is : list instr),
+  emit_program_instrs opt (Some p) prog = Ok is ->
+  forall (pre : list instr) (l : Z) (post : list instr),
+  is = pre ++ IMarker l :: post ->
+  exists (k : construct) (i : instr) (post' : list instr), post = i :: post' /\ In k (program_constructs prog) /\ kline k = l /\ shows k i.
+Proof. exact MarkerLines.marker_names_following_construct. Qed.
+Print Assumptions marker_names_following_construct.
+
+Theorem script_marker_names_following_construct :
+  forall (p : text) (tl : list text) (name : text) (glob opt : bool) (body : list stmt) (is : list instr),
+  emit_script (Some p) tl name glob opt body = Ok is ->
+  forall (pre : list instr) (l : Z) (post : list instr),
+  is = pre ++ IMarker l :: post ->
+  exists (k : construct) (i : instr) (post' : list instr), post = i :: post' /\ In k (body_constructs body) /\ kline k = l /\ shows k i.
+Proof. exact MarkerLines.script_marker_names_following_construct. Qed.
+Print Assumptions script_marker_names_following_construct.
+
+Theorem command_marker_site :
+  forall (switches : list (text * text)) (env_errors : bool) (parse_format : toks -> Parser.res (token * text * text * toks))
+    (consts : list (text * text)) (f : nat) (script : text) (ts : toks) (c : cmd) (imp : impdata) (ts' : toks),
+  command_stmt switches env_errors parse_format consts f script ts = Parser.Ok (c, imp, ts') -> ctok c = cur ts /\ cname c = tlit (cur ts).
+Proof. exact MarkerLines.command_marker_site. Qed.
+Print Assumptions command_marker_site.
+
+Theorem label_marker_site :
+  forall (ts : toks) (s : stmt) (ts' : toks), try_label ts = Some (s, ts') -> exists g : bool, s = SLabel (tlit (cur ts)) g (cur ts).
+Proof. exact MarkerLines.label_marker_site. Qed.
+Print Assumptions label_marker_site.
+
+Theorem condition_marker_site :
+  forall (autovars : list (text * autovar)) (switches : list (text * text)) (env_errors : bool)
+    (parse_format : toks -> Parser.res (token * text * text * toks)) (consts : list (text * text)) (f : nat) (script : text) 
+    (ts0 : toks) (l : leaf) (imp : impdata) (ts' : toks),
+  leaf_expr autovars switches env_errors parse_format consts f script ts0 = Parser.Ok (l, imp, ts') ->
+  eof_ended ts0 ->
+  lpre l = None ->
+  exists (pre : list token) (op lp first : token) (seg : list token) (rp : token) (rest : list token),
+    ts0 = pre ++ op :: lp :: first :: seg ++ rp :: rest /\
+    (pre = [cur ts0] /\ peekis NOT ts0 = false \/ (exists nt : token, pre = [cur ts0; nt] /\ is NOT nt = true /\ peekis NOT ts0 = true)) /\
+    (ttype op = VAR \/ ttype op = FLAG \/ ttype op = DEFEATED) /\
+    is LPAREN lp = true /\
+    Forall (fun tk : token => is RPAREN tk = false) (first :: seg) /\
+    is RPAREN rp = true /\ loperand l = Parser.join sp (map (subst consts) (first :: seg)) /\ lline l = tline first.
+Proof. exact MarkerLines.condition_marker_site. Qed.
+Print Assumptions condition_marker_site.
+
+Theorem condition_autovar_marker_site :
+  forall (autovars : list (text * autovar)) (switches : list (text * text)) (env_errors : bool)
+    (parse_format : toks -> Parser.res (token * text * text * toks)) (consts : list (text * text)) (f : nat) (script : text) 
+    (ts0 : toks) (l : leaf) (imp : impdata) (ts' : toks) (c : cmd),
+  leaf_expr autovars switches env_errors parse_format consts f script ts0 = Parser.Ok (l, imp, ts') ->
+  eof_ended ts0 ->
+  lpre l = Some c ->
+  exists pre rest : list token,
+    ts0 = pre ++ ctok c :: rest /\
+    (pre = [cur ts0] /\ peekis NOT ts0 = false \/ (exists nt : token, pre = [cur ts0; nt] /\ is NOT nt = true /\ peekis NOT ts0 = true)) /\
+    is IDENT (ctok c) = true /\ cname c = tlit (ctok c) /\ lline l = tline (ctok c).
+Proof. exact MarkerLines.condition_autovar_marker_site. Qed.
+Print Assumptions condition_autovar_marker_site.
+
+Theorem switch_marker_site :
+  forall (autovars : list (text * autovar)) (switches : list (text * text)) (env_errors : bool)
+    (parse_format : toks -> Parser.res (token * text * text * toks)) (consts : list (text * text)) (f : nat) (script : text) 
+    (bs cs : list nat) (ts : toks) (ss : list stmt) (imp : impdata) (ts' : toks),
+  parse_switch autovars switches env_errors parse_format consts f script bs cs ts = Parser.Ok (ss, imp, ts') ->
+  eof_ended ts ->
+  (peekis VAR (adv ts) = true ->
+   exists (tg : nat) (operand : text) (oline : Z) (cases : list (bool * text * Z * list stmt)) (lp vr lp2 first : token) 
+   (rest : list token),
+     ss = [SSwitch tg operand oline cases] /\
+     ts = cur ts :: lp :: vr :: lp2 :: first :: rest /\ is LPAREN lp = true /\ is VAR vr = true /\ is LPAREN lp2 = true /\ oline = tline first) /\
+  (peekis VAR (adv ts) = false ->
+   exists (c : cmd) (tg : nat) (operand : text) (oline : Z) (cases : list (bool * text * Z * list stmt)) (lp : token) 
+   (rest : list token),
+     ss = [SCmd c; SSwitch tg operand oline cases] /\
+     ts = cur ts :: lp :: ctok c :: rest /\ is LPAREN lp = true /\ cname c = tlit (ctok c) /\ oline = tline (ctok c)).
+Proof. exact MarkerLines.switch_marker_site. Qed.
+Print Assumptions switch_marker_site.
+
+Theorem switch_cases_marker_site :
+  forall (autovars : list (text * autovar)) (switches : list (text * text)) (env_errors : bool)
+    (parse_format : toks -> Parser.res (token * text * text * toks)) (consts : list (text * text)),
+  (forall (ts : toks) (tk : token) (v sty : text) (ts' : toks),
+   parse_format ts = Parser.Ok (tk, v, sty, ts') -> forall a : toks, advs a ts -> advs a ts') ->
+  forall (f : nat) (script : text) (bs cs : list nat) (ts : toks) (ss : list stmt) (imp : impdata) (ts' : toks),
+  parse_switch autovars switches env_errors parse_format consts f script bs cs ts = Parser.Ok (ss, imp, ts') ->
+  eof_ended ts ->
+  exists (pre : list stmt) (tg : nat) (operand : text) (oline : Z) (cases : list (bool * text * Z * list stmt)),
+    ss = pre ++ [SSwitch tg operand oline cases] /\ Forall (case_marker_from consts ts) cases.
+Proof. exact MarkerLines.switch_cases_marker_site. Qed.
+Print Assumptions switch_cases_marker_site.
+
+Theorem text_marker_site :
+  forall (switches : list (text * text)) (env_errors : bool) (parse_format : toks -> Parser.res (token * text * text * toks)) 
+    (f : nat) (ts : toks) (td : textdef) (ts' : toks),
+  parse_text switches env_errors parse_format f ts = Parser.Ok (td, ts') -> xtok td = cur ts.
+Proof. exact MarkerLines.text_marker_site. Qed.
+Print Assumptions text_marker_site.
+
+Theorem movement_marker_site :
+  forall (switches : list (text * text)) (env_errors : bool) (f : nat) (ts : toks) (tp : top) (ts' : toks),
+  parse_movement switches env_errors f ts = Parser.Ok (tp, ts') ->
+  exists (name : text) (g : bool) (steps : list token), tp = TMovement name g (cur ts) steps /\ Forall (src_ident ts) steps.
+Proof. exact MarkerLines.movement_marker_site. Qed.
+Print Assumptions movement_marker_site.
+
+Theorem mart_marker_site :
+  forall (switches : list (text * text)) (env_errors : bool) (consts : list (text * text)) (f : nat) (ts : toks) (tp : top) (ts' : toks),
+  parse_mart switches env_errors consts f ts = Parser.Ok (tp, ts') ->
+  eof_ended ts ->
+  exists (name : text) (g : bool) (itoks : list token),
+    tp = TMart name g (cur ts) (map (subst consts) itoks) itoks /\ Forall (src_ident ts) itoks.
+Proof. exact MarkerLines.mart_marker_site. Qed.
+Print Assumptions mart_marker_site.
+
+Theorem raw_marker_site :
+  forall (ts : toks) (tp : top) (ts' : toks),
+  parse_raw ts = Parser.Ok (tp, ts') ->
+  eof_ended ts -> exists (rt : token) (rest : list token), ts = cur ts :: rt :: rest /\ is RAWSTRING rt = true /\ tp = TRaw (tlit rt) (tline rt).
+Proof. exact MarkerLines.raw_marker_site. Qed.
+Print Assumptions raw_marker_site.
+
+Theorem table_entry_marker_site :
+  forall (autovars : list (text * autovar)) (switches : list (text * text)) (env_errors : bool)
+    (parse_format : toks -> Parser.res (token * text * text * toks)) (consts : list (text * text)),
+  (forall (ts : toks) (tk : token) (v sty : text) (ts' : toks),
+   parse_format ts = Parser.Ok (tk, v, sty, ts') -> forall a : toks, advs a ts -> advs a ts') ->
+  forall (f : nat) (mapname tyname : text) (ts : toks) (i : nat) (acc : list tableentry) (imp : impdata) (r : list tableentry * impdata * toks),
+  ms_table autovars switches env_errors parse_format consts (Datatypes.S f) mapname tyname ts i acc imp = Parser.Ok r ->
+  eof_ended ts ->
+  curis RBRACKET ts = false ->
+  exists (e : tableentry) (imp1 : impdata) (ts1 : toks),
+    teCond e = cur ts /\
+    ms_table autovars switches env_errors parse_format consts f mapname tyname ts1 (Datatypes.S i) (acc ++ [e]) imp1 = Parser.Ok r.
+Proof. exact MarkerLines.table_entry_marker_site. Qed.
+Print Assumptions table_entry_marker_site.
+
+Theorem program_lines_from_stream :
+  forall (autovars : list (text * autovar)) (switches : list (text * text)) (env_errors : bool)
+    (parse_format : toks -> Parser.res (token * text * text * toks)),
+  (forall (ts : toks) (tk : token) (v sty : text) (ts' : toks),
+   parse_format ts = Parser.Ok (tk, v, sty, ts') -> forall a : toks, advs a ts -> advs a ts') ->
+  (forall (ts : toks) (tk : token) (v sty : text) (ts' : toks), parse_format ts = Parser.Ok (tk, v, sty, ts') -> ts <> [] -> In tk ts) ->
+  forall (ts : toks) (p : program),
+  parse_program autovars switches env_errors parse_format ts = Parser.Ok p -> eof_ended ts -> Forall (origin ts) (program_constructs p).
+Proof. exact MarkerLines.program_lines_from_stream. Qed.
+Print Assumptions program_lines_from_stream.
+
+Theorem raw_strings_located :
+  forall (is_letter_hi is_digit_hi is_space_hi : N -> bool) (s : text), Forall (raw_located s) (lex is_letter_hi is_digit_hi is_space_hi s).
+Proof. exact MarkerLines.raw_strings_located. Qed.
+Print Assumptions raw_strings_located.
+
+Theorem constructs_on_source_lines :
+  forall (is_letter_hi is_digit_hi is_space_hi : N -> bool) (autovars : list (text * autovar)) (switches : list (text * text))
+    (env_errors : bool) (fc : fontcfg) (cli_font : text) (cli_maxlen : Z) (src : text) (prog : program),
+  parse_program autovars switches env_errors (parse_format fc cli_font cli_maxlen env_errors) (lex is_letter_hi is_digit_hi is_space_hi src) =
+  Parser.Ok prog ->
+  Forall (fun k : construct => on_source_line src (lex is_letter_hi is_digit_hi is_space_hi src) k /\ (1 <= kline k <= 1 + nl src)%Z)
+    (program_constructs prog).
+Proof. exact MarkerLines.constructs_on_source_lines. Qed.
+Print Assumptions constructs_on_source_lines.
+
+Theorem markers_name_source_lines :
+  forall (is_letter_hi is_digit_hi is_space_hi : N -> bool) (autovars : list (text * autovar)) (switches : list (text * text))
+    (env_errors : bool) (fc : fontcfg) (cli_font : text) (cli_maxlen : Z) (opt : bool) (path src : text) (prog : program) 
+    (is : list instr),
+  parse_program autovars switches env_errors (parse_format fc cli_font cli_maxlen env_errors) (lex is_letter_hi is_digit_hi is_space_hi src) =
+  Parser.Ok prog ->
+  emit_program_instrs opt (Some path) prog = Ok is ->
+  forall (pre : list instr) (l : Z) (post : list instr),
+  is = pre ++ IMarker l :: post ->
+  (1 <= l <= 1 + nl src)%Z /\
+  (exists (k : construct) (i : instr) (post' : list instr),
+     post = i :: post' /\
+     In k (program_constructs prog) /\ shows k i /\ kline k = l /\ on_source_line src (lex is_letter_hi is_digit_hi is_space_hi src) k).
+Proof. exact MarkerLines.markers_name_source_lines. Qed.
+Print Assumptions markers_name_source_lines.
+
+Theorem markers_in_range :
+  forall (is_letter_hi is_digit_hi is_space_hi : N -> bool) (autovars : list (text * autovar)) (switches : list (text * text))
+    (env_errors : bool) (fc : fontcfg) (cli_font : text) (cli_maxlen : Z) (opt : bool) (path src : text) (prog : program) 
+    (is : list instr),
+  parse_program autovars switches env_errors (parse_format fc cli_font cli_maxlen env_errors) (lex is_letter_hi is_digit_hi is_space_hi src) =
+  Parser.Ok prog -> emit_program_instrs opt (Some path) prog = Ok is -> forall l : Z, In (IMarker l) is -> (1 <= l <= 1 + nl src)%Z.
+Proof. exact MarkerLines.markers_in_range. Qed.
+Print Assumptions markers_in_range.
+
+Theorem compile_markers_name_source_lines :
+  forall (is_letter_hi is_digit_hi is_space_hi : N -> bool) (autovars : list (text * autovar)) (switches : list (text * text))
+    (env_errors : bool) (fc : fontcfg) (cli_font : text) (cli_maxlen : Z) (opt : bool) (path src out : text),
+  Compile.compile is_letter_hi is_digit_hi is_space_hi autovars switches env_errors fc cli_font cli_maxlen opt (Some path) src =
+  Compile.OutText out ->
+  exists (prog : program) (is : list instr),
+    parse_program autovars switches env_errors (parse_format fc cli_font cli_maxlen env_errors) (lex is_letter_hi is_digit_hi is_space_hi src) =
+    Parser.Ok prog /\
+    emit_program_instrs opt (Some path) prog = Ok is /\
+    out = print_instrs (Some path) is /\
+    (forall (pre : list instr) (l : Z) (post : list instr),
+     is = pre ++ IMarker l :: post ->
+     (1 <= l <= 1 + nl src)%Z /\
+     (exists (k : construct) (i : instr) (post' : list instr),
+        post = i :: post' /\
+        In k (program_constructs prog) /\ shows k i /\ kline k = l /\ on_source_line src (lex is_letter_hi is_digit_hi is_space_hi src) k)).
+Proof. exact MarkerLines.compile_markers_name_source_lines. Qed.
+Print Assumptions compile_markers_name_source_lines.
+
